@@ -7,6 +7,7 @@ import (
 	"math"
 	"reflect"
 	"regexp"
+	"strconv"
 	"strings"
 
 	"gopkg.in/yaml.v3"
@@ -51,7 +52,7 @@ func genValue(c *core.Ctx) c17Value {
 		}
 		return c17Value{"int", c.Rng.Int63n(1<<40) - (1 << 39)}
 	case 2:
-		return c17Value{"float", []float64{1.5, 0.1, 3.14159, -2.25, 1e10, 123456.789}[c.Rng.Intn(6)]}
+		return c17Value{"float", []float64{1.5, 0.1, 3.14159, -2.25, 1e10, 123456.789, 0.00001, 2.5e-7, 1.5e22}[c.Rng.Intn(9)]}
 	case 3:
 		return c17Value{"bool", c.Rng.Intn(2) == 0}
 	case 4, 5, 6, 7:
@@ -117,6 +118,8 @@ func targetsFor(v c17Value) (types []reflect.Type, expect []any) {
 		f := v.v.(float64)
 		add(reflect.TypeOf(float64(0)), f)
 		add(reflect.TypeOf((*float64)(nil)), &f)
+		// a float bound to a string field arrives as its plain decimal text (also very small / very large ones)
+		add(reflect.TypeOf(""), strconv.FormatFloat(f, 'f', -1, 64))
 	case "bool":
 		b := v.v.(bool)
 		add(reflect.TypeOf(false), b)
@@ -246,6 +249,42 @@ func (p c17) memberCase(c *core.Ctx) {
 	c.Nontrivial("membercase|" + tag + "|" + doc)
 }
 
+// embeddedMember: a configuration struct with an untagged embedded struct is bound like any nested struct -
+// the embedded struct's members come from the subtree under its own key.
+func (p c17) embeddedMember(c *core.Ctx) {
+	size, psize := c.Rng.Intn(50), 50+c.Rng.Intn(50)
+	backend := []string{"007", "pg", "1.10"}[c.Rng.Intn(3)]
+	doc := fmt.Sprintf("db:\n  name: main\n  size: %d\n  poolcfg:\n    size: %d\n    backend: %q\n", size, psize, backend)
+	want := world.DBCfg{PoolCfg: world.PoolCfg{Size: psize, Backend: backend}, Size: size, Name: "main"}
+	tag := []string{`prefix:"db"`, `value:"${db}"`, `prop:"db"`}[c.Rng.Intn(3)]
+	ptr := c.Rng.Intn(2) == 0
+	var ft reflect.Type = reflect.TypeOf(world.DBCfg{})
+	if ptr {
+		ft = reflect.PointerTo(ft)
+	}
+	got, out, det := bindOnce(tag, ft, doc)
+	c.Count("starts", 1)
+	detail := map[string]any{"tag": tag, "document": doc, "outcome": det}
+	if abnormal(out) {
+		c.Fail("", fmt.Sprintf("%s into %s: %s", tag, ft, det), detail)
+		return
+	}
+	var gv world.DBCfg
+	if ptr {
+		if p, _ := got.(*world.DBCfg); p != nil {
+			gv = *p
+		}
+	} else {
+		gv, _ = got.(world.DBCfg)
+	}
+	if out != "ok" || gv != want {
+		c.Fail("", fmt.Sprintf("%s into %s gives %+v (%s), expected %+v: the members of the embedded struct come from the subtree under its own key", tag, ft, gv, out, want), detail)
+		return
+	}
+	c.Count("embedded_member_bindings_checked", 1)
+	c.Nontrivial("embeddedmember|" + tag + "|" + doc)
+}
+
 // composite: a value tag assembled from several placeholders (beginning and ending with one) binds the whole
 // assembled text, each configured value appearing unchanged at its place.
 func (p c17) composite(c *core.Ctx) {
@@ -291,6 +330,10 @@ func (p c17) Run(c *core.Ctx) {
 	}
 	if c.Index%20 == 11 {
 		p.composite(c)
+		return
+	}
+	if c.Index%20 == 1 {
+		p.embeddedMember(c)
 		return
 	}
 	if c.Index%5 == 4 {
